@@ -10,6 +10,7 @@ N, SEED, OUT = int(sys.argv[1]), int(sys.argv[2]), sys.argv[3]
 W = int(sys.argv[4]) if len(sys.argv) > 4 else 5
 FILT = sys.argv[5] if len(sys.argv) > 5 else ""
 FILES = ["blocks.go", "inlines.go", "parse.go", "parse_html.go", "html_renderer.go", "references.go", "walk.go", "node.go", "format/format.go"]
+ROOT = os.path.dirname(os.path.abspath(__file__))
 ENV = dict(os.environ, GOFLAGS="-mod=mod", GOPROXY="off", GOSUMDB="off", GOTOOLCHAIN="local")
 ORDER = {
     "format/format.go": ["C20", "C04", "C19"],
@@ -31,7 +32,7 @@ def sites():
     all_ = []
     for f in FILES:
         if FILT and FILT not in f: continue
-        rc, out = sh("/verif/bin/mutate list /repo/%s" % f)
+        rc, out = sh("%s/bin/mutate list /repo/%s" % (ROOT, f))
         for l in out.splitlines():
             i, line, op, desc = l.split("\t")
             all_.append((f, int(i), int(line), op, desc))
@@ -52,7 +53,7 @@ def one(m):
     shutil.rmtree(d, ignore_errors=True); os.makedirs(d)
     try:
         sh("git -C /repo archive HEAD | tar -x -C %s" % d)
-        rc, out = sh("/verif/bin/mutate apply /repo/%s %d %s/%s" % (f, i, d, f))
+        rc, out = sh("%s/bin/mutate apply /repo/%s %d %s/%s" % (ROOT, f, i, d, f))
         if rc != 0:
             res["status"] = "apply_failed"; return res
         rc, out = sh("go build ./...", cwd=d, timeout=300)
@@ -65,7 +66,7 @@ def one(m):
         order = ORDER.get(f, []) + [p for p in GENERIC if p not in ORDER.get(f, [])]
         for p in order:
             t0 = time.time()
-            rc, out = sh("./check %s quick" % p, cwd="/verif", extra={"VERIF_REPO": d}, timeout=1500)
+            rc, out = sh("./check %s quick" % p, cwd=ROOT, extra={"VERIF_REPO": d}, timeout=1500)
             res["checks"][p] = rc
             if rc == 1:
                 res["status"] = "caught"; res["by"] = p
@@ -76,13 +77,16 @@ def one(m):
     finally:
         shutil.rmtree(d, ignore_errors=True)
         t = alt_tag(d)
-        for g in glob.glob("/verif/bin/*%s*" % t) + glob.glob("/verif/.work/*%s*" % t):
+        for g in glob.glob(ROOT + "/bin/*%s*" % t) + glob.glob(ROOT + "/.work/*%s*" % t):
             if os.path.isdir(g): shutil.rmtree(g, ignore_errors=True)
             else:
                 try: os.remove(g)
                 except OSError: pass
 
 def main():
+    rc, out = sh("mkdir -p bin && go build -o bin/mutate ./cmd/mutate && go build -o bin/check ./cmd/check", cwd=ROOT)
+    if rc != 0:
+        print(out); sys.exit(2)
     allsites = sites()
     rnd = random.Random(SEED)
     pick = rnd.sample(allsites, min(N, len(allsites)))
